@@ -6,6 +6,7 @@ import (
 	"strings"
 	"time"
 
+	"verif/internal/checks/agg"
 	"verif/internal/checks/relay"
 )
 
@@ -48,4 +49,22 @@ func init() {
 		// handled in main via checks map? simpler: run here and exit
 		defer func() {}()
 	}
+}
+
+func smokeAgg(id, tier, script string) int {
+	s := agg.New(aggCfg(id, tier))
+	bad := 0
+	for _, op := range strings.Split(script, ";") {
+		op = strings.TrimSpace(op)
+		if op == "" {
+			continue
+		}
+		obs, class, vs := s.Apply(op)
+		fmt.Printf("%-40s -> %s | %s\n", op, obs, class)
+		for _, v := range append(vs, s.Check()...) {
+			bad++
+			fmt.Printf("     VIOL %s: %s\n", v.Sig, v.Detail)
+		}
+	}
+	return bad
 }
